@@ -17,8 +17,9 @@ CONSTANTS
   Burst <- NoLimit
   BroadcastDedup = TRUE
   FIX_PruneEmpty = TRUE
+  FIX_Recheck = TRUE
   AllowLate = TRUE
-  TrackEvicted = FALSE
+  TrackEvicted = TRUE
   AtomicCheck = FALSE
   FlipAccounts = {"A", "B"}
   Self = "A"
@@ -28,6 +29,7 @@ CONSTANTS
   RingSize = 1
 VIEW View
 INVARIANT NodeInv
+INVARIANT EvictedStayOut
 PROPERTY PropDeliveryExact
 PROPERTY PropAtMostOneCopy
 PROPERTY PropRelayedNeverForwarded
